@@ -98,6 +98,30 @@ Section Statements.
     forall o, In o univ -> P o = true -> In o l.
   Proof. exact (ListObjectsProofs.execute_complete_partial A eqb eqb_spec). Qed.
 
+  (* with the kind of the error: a datastore fault (any error that is not a condition-evaluation
+     error) fails the request; a response WITHOUT error that the limit did not cut is the complete
+     permitted set unless a condition error met maxResults = 0 — the statement the fault-injection
+     runs of harness/cmd/c05 check on the real code for every single-read fault *)
+  Theorem execute_k_other_fails : forall (check : A -> bool) cands limit arrival k,
+    execute_k A eqb cands check limit arrival (Some (k, OtherError)) = Failed A.
+  Proof. exact (ListObjectsProofs.execute_k_other_fails A eqb). Qed.
+
+  Theorem execute_k_complete_partial : forall (P check : A -> bool) univ cands limit arrival err l,
+    (forall k, err <> Some (k, CondError)) \/ 0 < limit ->
+    (forall o, P o = true -> check o = true) ->
+    complete A eqb P univ cands = true ->
+    execute_k A eqb cands check limit arrival err = Objects A l ->
+    limit = 0 \/ length l < limit ->
+    forall o, In o univ -> P o = true -> In o l.
+  Proof. exact (ListObjectsProofs.execute_k_complete_partial A eqb eqb_spec). Qed.
+
+  Theorem execute_k_sound : forall (P check : A -> bool) cands limit arrival err l,
+    (forall o, check o = true -> P o = true) ->
+    nofurther_sound A P cands = true ->
+    execute_k A eqb cands check limit arrival err = Objects A l ->
+    NoDup l /\ forall o, In o l -> P o = true.
+  Proof. exact (ListObjectsProofs.execute_k_sound A eqb eqb_spec). Qed.
+
   Theorem execute_streamed_sound : forall (P check : A -> bool) cands arrival err_after,
     (forall o, check o = true -> P o = true) ->
     nofurther_sound A P cands = true ->
@@ -152,6 +176,9 @@ Print Assumptions evaluate_length.
 Print Assumptions execute_sound.
 Print Assumptions execute_complete_partial.
 Print Assumptions execute_streamed_sound.
+Print Assumptions execute_k_other_fails.
+Print Assumptions execute_k_complete_partial.
+Print Assumptions execute_k_sound.
 Print Assumptions execute_streamed_complete.
 Print Assumptions pipeline_recv_spec.
 Print Assumptions evaluate_racy_sound_nodup.
@@ -328,3 +355,22 @@ Proof.
   vm_compute. repeat split; auto.
 Qed.
 Print Assumptions lo_limit_racy_refuted.
+
+(* ---- datastore faults: never a successful strict subset ---- *)
+Example execute_k_ex :
+  execute_k nat Nat.eqb ex_cands ex_P 0 ex_arrival (Some (1, OtherError)) = Failed nat /\
+  execute_k nat Nat.eqb ex_cands ex_P 2 ex_arrival (Some (5, CondError)) = Objects nat [3; 5] /\
+  execute_k nat Nat.eqb ex_cands ex_P 0 ex_arrival (Some (1, CondError)) = Objects nat [3] /\
+  execute_k nat Nat.eqb ex_cands ex_P 0 ex_arrival None = Objects nat [3; 5; 1].
+Proof. vm_compute. repeat split. Qed.
+
+Example execute_k_complete_partial_ex : forall err l,
+  (forall k, err <> Some (k, CondError)) ->
+  execute_k nat Nat.eqb ex_cands ex_P 0 ex_arrival err = Objects nat l -> In 1 l /\ In 3 l /\ In 5 l.
+Proof.
+  intros err l Hne H.
+  assert (Hall : forall o, In o ex_univ -> ex_P o = true -> In o l).
+  { apply (execute_k_complete_partial nat Nat.eqb nat_eqb_spec ex_P ex_P ex_univ ex_cands 0 ex_arrival err l);
+      [left; exact Hne | auto | reflexivity | exact H | left; reflexivity]. }
+  repeat split; apply Hall; simpl; tauto || reflexivity.
+Qed.
